@@ -12,7 +12,8 @@ import sys
 import tempfile
 import time
 
-ROOT = "/verif"
+# the tree this orchestrator lives in (normally /verif; a development checkout can be exercised in place)
+ROOT = os.path.dirname(os.path.dirname(os.path.abspath(__file__)))
 # VT_REPO (seed evaluation only): analyse a scratch worktree instead of /repo
 PYPATH = ROOT + (os.pathsep + os.environ["VT_REPO"] if os.environ.get("VT_REPO") else "")
 NCPU = int(os.environ.get("VT_JOBS", "0") or 0) or min(16, os.cpu_count() or 4)
@@ -37,6 +38,16 @@ def do_replay(path):
         rp = json.load(f)
     mod = harness_module(rp["property"])
     res = mod.replay(rp["obligation"], rp["case"])
+    if res.get("ok") and rp.get("history"):
+        # does not reproduce alone: run the cases the worker explored just before it in the same process, then again
+        for h in rp["history"]:
+            try:
+                mod.replay(rp["obligation"], h)
+            except Exception:  # noqa
+                pass
+        res = mod.replay(rp["obligation"], rp["case"])
+        if not res.get("ok"):
+            print("HISTORY-DEPENDENT: reproduces only after the %d preceding cases of the same process" % len(rp["history"]))
     if res.get("ok"):
         print("REPLAY-OK property=%s obligation=%s (does not reproduce)" % (rp["property"], rp["obligation"]))
         return 0
@@ -195,7 +206,7 @@ def main():
                     if per_fp[f.get("fingerprint")] > 3:
                         continue
                     rp = {"property": pid, "obligation": o["name"], "case": f["case"], "detail": f.get("detail"),
-                          "fingerprint": f.get("fingerprint")}
+                          "fingerprint": f.get("fingerprint"), "history": f.get("history") or []}
                     h = hashlib.sha1(json.dumps(rp, sort_keys=True, default=str).encode()).hexdigest()[:12]
                     d = os.path.join(ROOT, "replays", pid)
                     os.makedirs(d, exist_ok=True)
@@ -223,6 +234,9 @@ def main():
                                 print("VIOLATION property=%s replay=%s" % (pid, path))
                                 print("  obligation=%s fingerprint=%s" % (o["name"], fp))
                                 print("  detail=%s" % json.dumps(f.get("detail"), default=str)[:1500])
+                                for line in pr.stdout.splitlines():
+                                    if line.startswith("HISTORY-DEPENDENT"):
+                                        print("  note=%s" % line)
                     elif pr.returncode == 0:
                         harness_errors.append("%s: counterexample does not reproduce on replay: %s" % (o["name"], path))
                     else:
